@@ -1,5 +1,6 @@
 import Spok.Wire
 import Spok.Judge.Syntax
+import Spok.Syntax.WF
 /-! oracle driver for the syntax engine (lexer, parser, printer) -/
 namespace Spok.Oracle.Syntax
 open Spok Spok.Wire Spok.Judge
@@ -77,7 +78,14 @@ def handle (line : String) : String :=
              | some et, some o => b2s (c06 et o)
              | _, _ => "FAIL")
         | none => "na"
-      s!"{model} || C16={jC16} C08={jC08} C07={jC07} C11={jC11} C15={jC15} C06={jC06}"
+      -- runtime validation of the hypotheses the round-trip theorems still carry: every parsed tree is
+      -- well formed, and the formatted text parses to exactly the normalised tree
+      let (jWF, jNORM) := match mOut with
+        | .ok t =>
+          let p := flat (format t)
+          (b2s (wfTree t), b2s (match outcomeOf p (parse p) with | .ok t2 => t2 == norm t | _ => false))
+        | _ => ("na", "na")
+      s!"{model} || C16={jC16} C08={jC08} C07={jC07} C11={jC11} C15={jC15} C06={jC06} WF={jWF} NORM={jNORM}"
   | _ => "BAD-LINE"
 
 end Spok.Oracle.Syntax
